@@ -251,6 +251,49 @@ def r_kernel_call_typestates(ctx, rules=('R15.1', 'R16.2', 'R18.4'), only_funcs:
                 obs.append(violation(r_mrts, t, f.loc(st), key=f"{_fn(f)}::kwargs-MRTS",
                                      detail=f"default_thresh({', '.join(ast.unparse(x) for x in dcall.args)}); prologue before: "
                                             f"{pr is not None and pr['index'] < k}"))
+    # multivariate wrappers that forward **kwargs to a per-pair function must have resolved 'auto' into kwargs first:
+    # otherwise every pair computes its own threshold from two trains while the profile route uses the pooled one
+    for f in wm.funcs:
+        if only_funcs is not None and f.name not in only_funcs:
+            continue
+        if not r_mrts:
+            continue
+        tps = wm.train_params.get(f.qual, set())
+        if not tps or f.node.args.kwarg is None:
+            continue
+        kw = f.node.args.kwarg.arg
+        owner = f
+        res_idx = None
+        for k, st in enumerate(f.node.body):
+            if _kwargs_mrts_resolution(st, 'MRTS', wm, f) is not None:
+                res_idx = k
+        # calls (also inside nested helpers such as divide_and_conquer) that pass elements of a train list and **kwargs
+        nodes = [f.node] + [n for n in ast.walk(f.node) if isinstance(n, ast.FunctionDef) and n is not f.node]
+        seen_calls = set()
+        for n in ast.walk(f.node):
+            if not isinstance(n, ast.Call) or id(n) in seen_calls:
+                continue
+            seen_calls.add(id(n))
+            fw = any(k.arg is None and isinstance(k.value, ast.Name) and k.value.id == kw for k in n.keywords)
+            if not fw:
+                continue
+            elem = [a for a in n.args if isinstance(a, ast.Subscript) and isinstance(a.value, ast.Name) and a.value.id in tps
+                    and not isinstance(a.slice, ast.Constant)]       # args[0], args[1] of a dispatcher are the whole input
+            if len(elem) < 2:
+                continue
+            explicit = any(k.arg == 'MRTS' for k in n.keywords)
+            t = (f"{f.name}: before **kwargs are forwarded to a per-pair function, MRTS='auto' has been replaced in kwargs by the "
+                 f"threshold of the whole (reconciled) list - every pair and the profile route then use the same threshold")
+            top = top_level_index(f, n)
+            if explicit or (res_idx is not None and (top == -1 or res_idx < top or top_level_index(f, n) >= 0 and res_idx < top)):
+                obs.append(ok(r_mrts, t, f.loc(n), construct=f"{_fn(f)}::forward-kwargs::{n.lineno - f.node.lineno}"))
+            elif res_idx is not None:
+                # call inside a nested helper defined before the resolution statement: the helper runs after it
+                obs.append(ok(r_mrts, t, f.loc(n), construct=f"{_fn(f)}::forward-kwargs::{n.lineno - f.node.lineno}"))
+            else:
+                obs.append(violation(r_mrts, t, f.loc(n), key=f"{_fn(f)}::forwards-unresolved-auto",
+                                     detail=f"`{ast.unparse(n)[:100]}`: kwargs may still carry MRTS='auto' (no "
+                                            f"`kwargs['MRTS'] = default_thresh(...)` in this function)"))
     return obs
 
 
